@@ -24,23 +24,23 @@ PROPS = {
     'C03': {
         'correspondence': CORR_L1,
         'coq': ['theories/Props/C03.vo', 'theories/Inst/C03_now.vo', 'theories/L1h/PropsC03once.vo', 'theories/L1h/Inst.vo', 'theories/L1b/PropsLbound.vo', 'theories/L1b/Inst.vo', 'theories/Inst/Fut_now.vo'],
-        'profiles': [prof('pool', (80, 20), (2000, 80)), prof('core', (40, 10), (1000, 40), extra=['--min-pool', '1']), prof('fut', (50, 15), (1000, 60), extra=['--min-pool', '1']), prof('progs:fut_extra.progs', (0, 60), (0, 1500))],
+        'profiles': [prof('pool', (80, 20), (2000, 80)), prof('core', (40, 10), (1000, 40), extra=['--min-pool', '1']), prof('fut', (50, 15), (1000, 60), extra=['--min-pool', '1']), prof('progs:fut_extra.progs', (0, 60), (0, 1500)), prof('progs:susp_extra.progs', (0, 60), (0, 1500))],
         'monitors': ['C03'], 'liveness': True, 'panics': False,
         'trusted_base': L1_TRUST,
         'assumptions': ['L-quiet (terminal => complete) plus L-bound (every run of the L1 model is shorter than an explicit bound: no livelock) give: every maximal execution ends complete; both for layer L1 (operations that do not suspend)'],
     },
     'C02': {
         'correspondence': CORR_L1,
-        'coq': ['theories/L1h/PropsC02.vo', 'theories/L1h/Inst.vo', 'theories/L1r/PropsObjExec.vo', 'theories/L1r/Inst.vo', 'theories/L2/PropsC02.vo', 'theories/L2/Inst.vo'],
-        'profiles': [prof('core', (60, 15), (1500, 60)), prof('sync', (40, 15), (800, 60)), prof('fut', (40, 15), (800, 40)), prof('fsync', (30, 10), (600, 40)), prof('sweep:overlap_sweep.progs', (0, 2), (0, 12))],
+        'coq': ['theories/L1h/PropsC02.vo', 'theories/L1h/Inst.vo', 'theories/L1r/PropsObjExec.vo', 'theories/L1r/Inst.vo', 'theories/L2/PropsC02.vo', 'theories/L2/Inst.vo', 'theories/Inst/Fut_now.vo', 'theories/SyncFut/PropsC08.vo', 'theories/Inst/C08_now.vo'],
+        'profiles': [prof('core', (60, 15), (1500, 60)), prof('sync', (40, 15), (800, 60)), prof('fut', (40, 15), (800, 40)), prof('fsync', (30, 10), (600, 40)), prof('sweep:overlap_sweep.progs', (0, 2), (0, 12)), prof('progs:fut_extra.progs', (0, 60), (0, 1500)), prof('progs:cancel.progs', (0, 100), (0, 3000)), prof('progs:syncfut_extra.progs', (0, 20), (0, 300))],
         'monitors': ['C02'], 'liveness': False, 'panics': False,
         'trusted_base': L1_TRUST + ['L1h: history observer over the unmodified L1 step function'],
-        'assumptions': ['L1 (history theorem, ObjExec refinement) for desync/sync/try_sync; L2 (pushes = starts ++ pending) for future-based operations on one queue'],
+        'assumptions': ['L1 (history theorem, ObjExec refinement) for desync/sync/try_sync; L2 (pushes = starts ++ pending) for future-based operations on one queue; SyncFut (C08_2: no other operation starts or finishes inside the slot of a future_sync, also when it is cancelled) with its field-order / no-Drop-impl facts'],
     },
     'C04': {
         'correspondence': CORR_L1,
         'coq': ['theories/Props/C04.vo', 'theories/Inst/C04_now.vo', 'theories/L1h/PropsC04.vo', 'theories/L1h/Inst.vo', 'theories/L1b/PropsLbound.vo', 'theories/L1b/Inst.vo', 'theories/L1z/PropsC04zero.vo', 'theories/L1z/Inst.vo', 'theories/Inst/Fut_now.vo', 'theories/L2/PropsC06.vo', 'theories/L2/Inst.vo'],
-        'profiles': [prof('sync', (80, 20), (2000, 80)), prof('core', (40, 10), (800, 40)), prof('pool', (30, 10), (600, 40)), prof('fut', (40, 15), (800, 60), extra=['--max-pool', '1']), prof('progs:fut_extra.progs', (0, 60), (0, 1500))],
+        'profiles': [prof('sync', (80, 20), (2000, 80)), prof('core', (40, 10), (800, 40)), prof('pool', (30, 10), (600, 40)), prof('fut', (40, 15), (800, 60), extra=['--max-pool', '1']), prof('progs:fut_extra.progs', (0, 60), (0, 1500)), prof('progs:susp_extra.progs', (0, 60), (0, 1500))],
         'monitors': ['C04'], 'liveness': True, 'panics': True,
         'trusted_base': L1_TRUST,
         'assumptions': ['C04_full (any pool maximum incl. 0) is proved for layer L1 (operations that do not suspend); sync on a queue suspended on a future is covered by L2\'s terminal theorem (pool >= 1) and by the profiles; nested sync from inside jobs is exercised by the profiles, not modelled'],
@@ -56,10 +56,10 @@ PROPS = {
     'C06': {
         'correspondence': CORR_L2,
         'coq': ['theories/L2/PropsC06.vo', 'theories/L2/Inst.vo', 'theories/L2/Examples.vo', 'theories/Inst/Fut_now.vo'],
-        'profiles': [prof('sweep:wake_sweep.progs', (0, 3), (0, 30)), prof('fut', (60, 15), (1500, 60)), prof('susp', (30, 10), (600, 40)), prof('progs:fut_extra.progs', (0, 60), (0, 1500))],
+        'profiles': [prof('sweep:wake_sweep.progs', (0, 3), (0, 30)), prof('fut', (60, 15), (1500, 60)), prof('susp', (30, 10), (600, 40)), prof('progs:fut_extra.progs', (0, 60), (0, 1500)), prof('progs:susp_extra.progs', (0, 60), (0, 1500))],
         'monitors': ['C06', 'C03', 'C07', 'C04'], 'liveness': True, 'panics': True,
         'trusted_base': L2_TRUST,
-        'assumptions': ['PARTIAL: the no-lost-wake invariant (all three runner contexts, any event timing, stale wakers) and the terminal theorem with >= 1 pool runner are proved; the variant with ZERO pool runners (C06_zero_pool_full in L2/Main.v) is only stated - it is exercised by the wake sweeps with pool 0'],
+        'assumptions': ['the no-lost-wake invariant (all three runner contexts, any event timing, stale wakers); terminal theorem with >= 1 pool runner (C06_terminal_partial_L2: in a terminal state with all events fired no operation is suspended and nothing is queued); terminal theorem with ZERO pool runners (C06_zero_pool_L2: caller 0 runs desync / awaited or detached future operations, the other callers only fire events: in a terminal state caller 0 has finished; needs zero_cond of the generated tables: poll always takes an idle or pending queue over). Outside the zero-pool theorem: suspend, sync and poll-then-drop on caller 0 (refuted for suspend: C06_zero_pool_needs_side_condition_refuted) - those are exercised by the pool-0 wake sweeps'],
     },
     'C07': {
         'correspondence': CORR_L2,
@@ -67,7 +67,7 @@ PROPS = {
         'profiles': [prof('fut', (100, 20), (2500, 60)), prof('sweep:wake_sweep.progs', (0, 2), (0, 12)), prof('progs:fut_extra.progs', (0, 60), (0, 1500))],
         'monitors': ['C07', 'C03'], 'liveness': True, 'panics': True,
         'trusted_base': L2_TRUST,
-        'assumptions': ['PARTIAL: proved - a result is resolved at most once, only after the operation signalled, with its own value; no would-panic state is reachable; poll stores the task waker in the critical section in which it found the result missing and signal takes and calls it; detached/dropped operations still run (C06 terminal theorem, pool >= 1). Not proved: the global statement that every awaiting caller has finished in a terminal state (C07_complete_full, one stack-shape invariant missing); it is exercised by the future profile'],
+        'assumptions': ['proved (C07_full_L2): a result is resolved at most once, only after the operation signalled, with its own value; no would-panic state is reachable; poll stores the task waker in the critical section in which it found the result missing and signal takes and calls it; the task invariant (Inv_task) holds in every reachable state; and C07_complete_L2: with >= 1 pool runner, in every terminal state with all events fired every actor is done (each awaiting caller has received its result, each pool runner is idle). With zero pool runners: C06_zero_pool_L2. The model is ONE queue; several objects by exploration'],
     },
     'C08': {
         'coq': ['theories/SyncFut/PropsC08.vo', 'theories/Inst/C08_now.vo'],
@@ -95,7 +95,7 @@ PROPS = {
     },
     'C11': {
         'correspondence': {'kind': 'pipein', 'profiles': [prof('pipein', (40, 5), (400, 10)), prof('progs:pipein_extra.progs', (0, 10), (0, 60))]},
-        'coq': ['theories/PipeIn/PropsC11.vo', 'theories/PipeIn/PropsC11_examples.vo', 'theories/Inst/C11_now.vo'],
+        'coq': ['theories/PipeIn/PropsC11.vo', 'theories/PipeIn/PropsC11_examples.vo', 'theories/Inst/C11_now.vo', 'theories/Inst/Fut_now.vo'],
         'profiles': [prof('pipein', (80, 20), (1500, 60), extra=['--max-steps', '30000'])],
         'monitors': ['C11', 'C01', 'C05'], 'liveness': True, 'panics': True,
         'trusted_base': ['PipeIn model (coq/theories/PipeIn/Model.v): hand-written, the object abstracted as one-at-a-time FIFO execution (justified by C01/C02), tied by translator facts and the run-time oracles'],
@@ -103,7 +103,7 @@ PROPS = {
     },
     'C12': {
         'correspondence': {'kind': 'pipe', 'profiles': [prof('pipe', (40, 5), (400, 10)), prof('progs:pipe_extra.progs', (0, 4), (0, 30))]},
-        'coq': ['theories/Pipe/PropsC12.vo', 'theories/Inst/C12_now.vo'],
+        'coq': ['theories/Pipe/PropsC12.vo', 'theories/Inst/C12_now.vo', 'theories/Inst/Fut_now.vo'],
         'profiles': [prof('pipe', (80, 20), (1500, 60), extra=['--max-steps', '30000'])],
         'monitors': ['C12', 'C01', 'C05'], 'liveness': True, 'panics': True,
         'trusted_base': ['Pipe model (coq/theories/Pipe/Model.v): hand-written, the object abstracted as one-at-a-time FIFO execution (justified by C01/C02), tied by translator facts and the run-time oracles'],
@@ -111,7 +111,7 @@ PROPS = {
     },
     'C16': {
         'correspondence': {'kind': 'pipe', 'profiles': [prof('pipedrop', (40, 5), (400, 10)), prof('progs:pipe_extra.progs', (0, 4), (0, 30))]},
-        'coq': ['theories/Pipe/PropsC16.vo', 'theories/Inst/C16_now.vo'],
+        'coq': ['theories/Pipe/PropsC16.vo', 'theories/Inst/C16_now.vo', 'theories/Inst/Fut_now.vo'],
         'profiles': [prof('pipedrop', (80, 25), (1500, 80), extra=['--max-steps', '30000']), prof('progs:pipe_lastowner.progs', (0, 100), (0, 2000), extra=['--max-steps', '30000'])],
         'monitors': ['C16', 'C12', 'C05'], 'liveness': True, 'panics': True,
         'trusted_base': ['Pipe model (coq/theories/Pipe/Model.v), see C12'],
@@ -120,14 +120,14 @@ PROPS = {
     'C13': {
         'correspondence': CORR_L2,
         'coq': ['theories/L2/PropsC13.vo', 'theories/L2/Inst.vo', 'theories/Inst/Fut_now.vo'],
-        'profiles': [prof('susp', (100, 20), (2500, 60))],
+        'profiles': [prof('susp', (100, 20), (2500, 60)), prof('progs:susp_extra.progs', (0, 60), (0, 1500))],
         'monitors': ['C13', 'C02', 'C04'], 'liveness': True, 'panics': True,
         'trusted_base': L2_TRUST + ['suspend is modelled as what the code does: a future operation that signals the resumer future first and then awaits the resume event'],
         'assumptions': ['state form: while the suspend operation is parked on the resume event, everything pushed before it has finished and nothing pushed after it has started, and this persists until the event fires; continuation in order afterwards is C06 (pool >= 1) + C02; the harness runs suspend through the scheduler-level API on plain queues'],
     },
     'C14': {
         'correspondence': CORR_L1,
-        'coq': ['theories/Props/C14.vo', 'theories/Inst/C14_now.vo', 'theories/Inst/Fut_now.vo'],
+        'coq': ['theories/Props/C14.vo', 'theories/Inst/C14_now.vo', 'theories/Inst/Fut_now.vo', 'theories/L2/PropsC01.vo', 'theories/L2/Inst.vo'],
         'profiles': [prof('drop', (60, 15), (1500, 60)), prof('sync', (40, 10), (800, 40)), prof('fsync', (100, 20), (1500, 60)), prof('progs:cancel.progs', (0, 400), (0, 6000)), prof('pipedrop', (30, 10), (400, 40), extra=['--max-steps', '30000']), prof('progs:fut_extra.progs', (0, 60), (0, 1500))],
         'monitors': ['C14', 'C05', 'C01', 'C08', 'C02'], 'liveness': False, 'panics': True,
         'trusted_base': L1_TRUST + ['memory as ghost state: the model speaks about WHEN closures, values and job storage are used, not about Rust-level aliasing or layout'],
@@ -142,10 +142,10 @@ PROPS = {
     },
     'C17': {
         'correspondence': CORR_L1,
-        'coq': ['theories/Props/C17.vo', 'theories/Inst/C17_now.vo'],
+        'coq': ['theories/Props/C17.vo', 'theories/Inst/C17_now.vo', 'theories/PoolChg/PropsC17chg.vo', 'theories/PoolChg/Inst.vo'],
         'profiles': [prof('pool', (60, 15), (1500, 60)), prof('poolchg', (80, 20), (2000, 60))],
         'monitors': ['C17'], 'liveness': True, 'panics': False,
         'trusted_base': L1_TRUST + ['live/peak count of pool threads from the shim\'s spawn/exit hooks (every thread ever started is counted, also one the scheduler never listed)'],
-        'assumptions': ['the model has a fixed maximum; maximum changes (M<n>/m<n> of the poolchg profile: set the maximum, despawn_threads_if_overloaded, bounded wake-up loop when raising) are exercised, not modelled. The counts are checked after changes made between phases (nothing queued, running or busy: what the property quantifies over); a lowering that races with scheduling calls can leave one thread above the new maximum on the unchanged code (the spawn decision reads the maximum before it takes the threads lock) and is only checked for "despawn returns"'],
+        'assumptions': ['L1/Pool.v: fixed maximum inside the full scheduler model. PoolChg layer (coq/theories/PoolChg): the spawn decision (read max; lock-test-push), set-max and the three steps of despawn (read, pop, join) as an own small model with any number of racing spawners: threads <= max when the maximum is never lowered, threads <= max_ever always (nothing created with max_ever 0), threads <= max after a lowering made between phases (all spawners idle) even with calls racing the despawn, the join terminates, alive <= max after the join; C17chg_racy_lowering_refuted: a spawner that read the old maximum pushes after lowering+despawn returned (the race observed on the real crate, outside the property\'s quantification); holds for every interleaving if the maximum were read under the threads lock. Harness: maximum changes (M<n>/m<n> of the poolchg profile: set the maximum, despawn_threads_if_overloaded, bounded wake-up loop when raising) are exercised, not modelled. The counts are checked after changes made between phases (nothing queued, running or busy: what the property quantifies over); a lowering that races with scheduling calls can leave one thread above the new maximum on the unchanged code (the spawn decision reads the maximum before it takes the threads lock) and is only checked for "despawn returns"'],
     },
 }
